@@ -1,4 +1,5 @@
 mod alone;
+mod c01;
 mod c02;
 mod c09;
 mod c12;
@@ -9,6 +10,8 @@ mod docgen;
 mod docs;
 mod families;
 mod framework;
+mod meter;
+mod walker;
 mod ops;
 mod rng;
 mod sched;
@@ -17,8 +20,12 @@ mod selftest;
 
 use framework::*;
 
+#[global_allocator]
+static ALLOC: meter::Meter = meter::Meter;
+
 fn make_check(id: &str) -> Option<Box<dyn Check>> {
     match id {
+        "C01" => Some(Box::new(c01::C01::new())),
         "C02" => Some(Box::new(c02::C02::new())),
         "C09" => Some(Box::new(c09::C09::new())),
         "C12" => Some(Box::new(c12::C12::new())),
